@@ -10,7 +10,8 @@
    points only.  A falsy update argument (None, 0, "", {}, []) is "not given": nothing is
    assigned.  Which check guards which entry point is tied by the battery of harness/c14.py. *)
 From Coq Require Import List ZArith NArith Bool.
-From TF Require Import Base Query DB Valid proofs.ValidP.
+From TF Require gen.ValidGen.
+From TF Require Import Base Query DB Valid ValidSem proofs.ValidP proofs.ValidGenP.
 Import ListNotations.
 
 Theorem C14_assigned_is_typed : forall s v, slot_ok s v = true <-> typed s v.
@@ -43,7 +44,21 @@ Proof. exact validate_tags_iff. Qed.
 Theorem C14_fields_reading : forall v, validate_fields v = true <-> exists d, to_fields v = Some d.
 Proof. exact validate_fields_iff. Qed.
 
+(* about the definitions REGENERATED from tinyflux/point.py on every run (gen/ValidGen.v) *)
+Theorem C14_source_validators_are_the_model : forall v,
+  ValidGen.validate_tags v = Valid.validate_tags v /\ ValidGen.validate_fields v = Valid.validate_fields v.
+Proof. exact (fun v => conj (gen_validate_tags_eq v) (gen_validate_fields_eq v)). Qed.
+Theorem C14_source_tags_accepts_exactly_typed : forall v, ValidGen.validate_tags v = true <-> exists d, to_tags v = Some d.
+Proof. exact source_validate_tags_iff. Qed.
+Theorem C14_source_fields_accepts_exactly_typed : forall v, ValidGen.validate_fields v = true <-> exists d, to_fields v = Some d.
+Proof. exact source_validate_fields_iff. Qed.
+Theorem C14_source_rejects_bool_fields : forall d k b, In (k, PvBool b) d -> ValidGen.validate_fields (PvDict d) = false.
+Proof. exact source_rejects_bool_fields. Qed.
+
 Print Assumptions C14_assigned_is_typed.
+Print Assumptions C14_source_validators_are_the_model.
+Print Assumptions C14_source_tags_accepts_exactly_typed.
+Print Assumptions C14_source_fields_accepts_exactly_typed.
 Print Assumptions C14_constructor.
 Print Assumptions C14_update_argument.
 Print Assumptions C14_callable_result.
